@@ -290,3 +290,85 @@ def lawTreesMatch : Bool :=
     (match grainText .hh93 .ecapture "" {} a s s with | .ok t => parseC t == some hh93ECaptureTree | _ => false)
 
 end Naunet.Grain
+
+/-! ### the remaining laws: base-class accretion, RR07 photodesorption, HH93 grain recombination, two-body surface
+    reactions and reactive desorption (added after seeded round 13) -/
+namespace Naunet.Grain
+open Naunet.CE Naunet.Rate
+
+def powE (a b : Expr) : Expr := call2 "pow" a b
+def fmaxE (a b : Expr) : Expr := call2 "fmax" a b
+
+/-- `α * pi * rG * rG * gdens * sqrt(8.0 * kerg * Tgas/ (pi*amu*A))` (base class: no switch) -/
+def baseDepletionTree (a : Lit) (s : SpecInfo) : Expr :=
+  mul (mul (mul (mul (mul a.tree (V "pi")) (V "rG")) (V "rG")) (V "gdens"))
+    (sqrtE (dvd (mul (mul (N "8.0") (V "kerg")) (V "Tgas")) (mul (mul (V "pi") (V "amu")) (M s.massId))))
+
+/-- `opt_uvd * 4.875e3 * gxsec * ((zeta / zism) + (G0 / uvcreff) * exp(-1.8*Av)) * Y / mant` -/
+def rr07PhotonRateTree (s : SpecInfo) : Expr :=
+  dvd (mul (mul (mul (mul (V "opt_uvd") (N "4.875e3")) (V "gxsec"))
+      (add (dvd (V "zeta") (V "zism")) (mul (dvd (V "G0") (V "uvcreff")) (expE (mul (.neg (N "1.8")) (V "Av"))))))
+    (M s.yieldId)) (V "mant")
+
+def rr07PhotonTree (s : SpecInfo) : Expr := rr07GuardTree "eb_uvd" s (rr07PhotonRateTree s)
+
+/-- `pow(echarge, 2.0)` -/
+def e2 : Expr := powE (V "echarge") (N "2.0")
+
+/-- `α * pi * rG * rG * gdens * sqrt(8.0*kerg*Tgas/(pi*amu*A)) * (1.0 + e²/rG/kerg/Tgas) *
+     (1.0 + sqrt(2.0*e²/(rG*kerg*Tgas+2.0*e²)))` -/
+def hh93RecombineTree (a : Lit) (s : SpecInfo) : Expr :=
+  mul (mul (mul (mul (mul (mul (mul a.tree (V "pi")) (V "rG")) (V "rG")) (V "gdens"))
+    (sqrtE (dvd (mul (mul (N "8.0") (V "kerg")) (V "Tgas")) (mul (mul (V "pi") (V "amu")) (M s.massId)))))
+    (add (N "1.0") (dvd (dvd (dvd e2 (V "rG")) (V "kerg")) (V "Tgas"))))
+    (add (N "1.0") (sqrtE (dvd (mul (N "2.0") e2) (add (mul (mul (V "rG") (V "kerg")) (V "Tgas")) (mul (N "2.0") e2)))))
+
+/-- characteristic frequency of one reactant on the surface: `freq * sqrt(E_b / A)` -/
+def sfreqTree (s : SpecInfo) : Expr := mul (V "freq") (sqrtE (dvd (M s.ebId) (M s.massId)))
+/-- thermal hopping rate: `freq * sqrt(E_b/A) * exp(-E_b*hop/Tdust)/unisites` -/
+def sdiffTree (td : String) (s : SpecInfo) : Expr :=
+  dvd (mul (sfreqTree s) (expE (dvd (mul (.neg (M s.ebId)) (V "hop")) (V td)))) (V "unisites")
+/-- tunnelling rate: `freq * sqrt(E_b/A) * exp(quan * sqrt(hop*A*E_b)) / unisites` -/
+def squanTree (s : SpecInfo) : Expr :=
+  dvd (mul (sfreqTree s) (expE (mul (V "quan") (sqrtE (mul (mul (V "hop") (M s.massId)) (M s.ebId)))))) (V "unisites")
+/-- `exp(-E_a/Tdust)` -/
+def kappaTree (td : String) (a : Lit) : Expr := expE (dvd a.negTree (V td))
+/-- `exp(quan * sqrt(((A1*A2)/(A1+A2))*E_a))` -/
+def kquanTree (a : Lit) (s1 s2 : SpecInfo) : Expr :=
+  expE (mul (V "quan") (sqrtE (mul (dvd (mul (M s1.massId) (M s2.massId)) (add (M s1.massId) (M s2.massId))) a.tree)))
+/-- the mobility of one reactant: hopping, or the faster of hopping and tunnelling for `GH` / `GH2` -/
+def mobTree (td : String) (s : SpecInfo) : Expr :=
+  if s.tunnel then fmaxE (sdiffTree td s) (squanTree s) else sdiffTree td s
+/-- the barrier factor: `exp(-E_a/T)`, or the larger of it and the tunnelling probability when a light reactant is present -/
+def barrierTree (td : String) (a : Lit) (s1 s2 : SpecInfo) : Expr :=
+  if s1.tunnel || s2.tunnel then fmaxE (kappaTree td a) (kquanTree a s1 s2) else kappaTree td a
+/-- `pow((nMono*densites), 2.0)` -/
+def sites2Tree : Expr := powE (mul (V "nMono") (V "densites")) (N "2.0")
+
+/-- `barrier * (mob₁ + mob₂) * pow((nMono*densites), 2.0) / gdens * cov * cov` -/
+def hh93SurfaceTree (td : String) (a : Lit) (s1 s2 : SpecInfo) : Expr :=
+  mul (mul (dvd (mul (mul (barrierTree td a s1 s2) (add (mobTree td s1) (mobTree td s2))) sites2Tree) (V "gdens")) (V "cov")) (V "cov")
+
+/-- reactive desorption: `opt_rcd * branch * <surface rate>` -/
+def hh93ReactiveTree (td : String) (a : Lit) (s1 s2 : SpecInfo) : Expr :=
+  mul (mul (dvd (mul (mul (mul (mul (V "opt_rcd") (V "branch")) (barrierTree td a s1 s2)) (add (mobTree td s1) (mobTree td s2))) sites2Tree)
+    (V "gdens")) (V "cov")) (V "cov")
+
+def specCases2 : List SpecInfo :=
+  [⟨10, 11, 12, "GCOI".toList, false, false, false⟩, ⟨20, 21, 22, "GHI".toList, false, false, true⟩]
+
+def lawTreesMatch2 : Bool :=
+  (litClasses 0).all fun a => specCases.all fun s =>
+    (match grainText .base .freeze "" {} a s s with | .ok t => parseC t == some (baseDepletionTree a s) | _ => false) &&
+    (match grainText .rr07 .photon "" {} a s s with | .ok t => parseC t == some (rr07PhotonTree s) | _ => false) &&
+    (match grainText .rr07x .photon "" {} a s s with | .ok t => parseC t == some (rr07PhotonTree s) | _ => false) &&
+    (match grainText .hh93 .recombine "" {} a s s with | .ok t => parseC t == some (hh93RecombineTree a s) | _ => false) &&
+    (match grainText .hh93i .recombine "" {} a s s with | .ok t => parseC t == some (hh93RecombineTree a s) | _ => false)
+
+def surfaceTreesMatch : Bool :=
+  (litClasses 0).all fun a => specCases2.all fun s1 => specCases2.all fun s2 => ["Tgas", "Tdust"].all fun td =>
+    (match grainText .hh93 .surface "" { tdust := td } a s1 s2 with | .ok t => parseC t == some (hh93SurfaceTree td a s1 s2) | _ => false) &&
+    (match grainText .hh93i .surface "" { tdust := td } a s1 s2 with | .ok t => parseC t == some (hh93SurfaceTree td a s1 s2) | _ => false) &&
+    (match grainText .hh93 .reactive "" { tdust := td } a s1 s2 with | .ok t => parseC t == some (hh93ReactiveTree td a s1 s2) | _ => false)
+
+end Naunet.Grain
